@@ -196,7 +196,7 @@ def h_plane_plane(vc):
         yan, ybn = SP.dot(y, an), SP.dot(y, bn)
         cr = SP.cross(y, dv)
         abstract = None
-        if vc.symbolic:
+        if vc.symbolic and len(vc.log.get("normalized", [])) >= 2 and vc.log.get("inter_line_plane"):
             (k1, _, v1), (k2, _, w) = vc.log["normalized"][:2]
             mu = vc.log["inter_line_plane"][0][0]
             wan = SP.dot(w, an)
